@@ -159,6 +159,74 @@ class SectionBlocks(LookupBase):
         return {"": [c0.get("_byte_interval", ref(v)), v]}
 
 
+class UpperLookup(LookupBase):
+    """Module / IR scope: byte_intervals_{on,at} (exact) and {byte,code,data}_blocks_{on,at} (sandwich)."""
+
+    def __init__(self, level, what, which, mode, addr_kind):
+        self.level, self.what, self.which, self.mode, self.addr_kind = level, what, which, mode, addr_kind
+        cls = {"module": "Module", "ir": "IR"}[level]
+        fn = "byte_intervals_%s" % mode if what == "intervals" else "%s_blocks_%s" % (which, mode)
+        self.target = "%s.py::%s.%s" % (level, cls, fn)
+        self.variant = addr_kind
+        self.cls = cls
+        self.params = {"self": "ref:" + cls, "addrs": addr_kind}
+        self.yield_cls = "ByteInterval" if what == "intervals" else \
+            {"code": "CodeBlock", "data": "DataBlock"}.get(which, "ByteBlock")
+        super().__init__()
+
+    def pre(self, c, a):
+        out = self.base_pre(c, a, a.addrs)
+        out["is_owner"] = c.isinst(a.self.t, self.cls)
+        out["wf_upper"] = forest.wf_upper(c)
+        return out
+
+    def yields(self, c0, a, v):
+        n = ref(v)
+        s, e, st = range_of(a.addrs)
+        if self.what == "intervals":
+            A, sz = c0.get("_address", n), ival(c0.get("_size", n))
+            q = on_q(ival(A), sz, s, e) if self.mode == "on" else at_q(ival(A), s, e, st)
+            return z3.And(is_VRef(v), forest.in_scope(c0, self.level, "interval", n, a.self.t), is_VInt(A), q)
+        scope, addr, sz, A, S = self._parts(c0, a, v)
+        q = on_q(addr, sz, s, e) if self.mode == "on" else at_q(addr, s, e, st)
+        return z3.And(scope, q)
+
+    def _parts(self, c0, a, v):
+        n = ref(v)
+        bi = ref(c0.get("_byte_interval", n))
+        A, S = c0.get("_address", bi), ival(c0.get("_size", bi))
+        off, sz = ival(c0.get("_offset", n)), ival(c0.get("_size", n))
+        scope = z3.And(is_VRef(v), forest.in_scope(c0, self.level, "block", n, a.self.t),
+                       kind_filter(c0, n, self.which), is_VInt(A))
+        return scope, ival(A) + off, sz, ival(A), S
+
+    def yields_must(self, c0, a, v):
+        if self.what == "intervals":
+            return None
+        s, e, st = range_of(a.addrs)
+        scope, addr, sz, A, S = self._parts(c0, a, v)
+        if self.mode == "on":
+            lo = z3.If(addr > s, addr, s)
+            lo = z3.If(A > lo, A, lo)
+            hi = z3.If(addr + sz < e, addr + sz, e)
+            hi = z3.If(A + S < hi, A + S, hi)
+            q = lo < hi
+        else:
+            q = z3.And(at_q(addr, s, e, st), A <= addr, addr < A + S)
+        return z3.And(scope, q)
+
+    def witness(self, c0, a, v):
+        n = ref(v)
+        if self.what == "intervals":
+            sec = c0.get("_section", n)
+        else:
+            sec = forest.section_of_block(c0, n)
+        if self.level == "module":
+            return {"": [sec, v]}
+        mod = c0.get("_module", ref(sec))
+        return {"": [z3.Select(c0.arr("$modpos"), ref(mod)), v]}
+
+
 def register(reg):
     reg.allow_inline("util.py::_nodes_on_interval_tree", "util.py::_nodes_at_interval_tree",
                      "util.py::_nodes_on_interval_tree_offset", "util.py::_nodes_at_interval_tree_offset")
@@ -170,3 +238,7 @@ def register(reg):
             reg.add(SectionIntervals(mode, kind))
             for which in ("byte", "code", "data"):
                 reg.add(SectionBlocks(which, mode, kind))
+            for level in ("module", "ir"):
+                reg.add(UpperLookup(level, "intervals", None, mode, kind))
+                for which in ("byte", "code", "data"):
+                    reg.add(UpperLookup(level, "blocks", which, mode, kind))
